@@ -1,2 +1,521 @@
+"""C16/inventory — exhaustive panic-site inventory with per-site discharge (DESIGN §3.6).
+
+Sites: every MIR Assert, every modelled callee with a panic precondition (unwrap/expect/index/slice), every
+explicit panic call, in every hand-written function and closure.  Each site must be discharged by exactly one
+stated argument, or be one of the documented rejections.  Anything else is a finding."""
+from fractions import Fraction
+from .common import *
+from ..terms import sym, term_str, NF, simp, subterms, TRUE, FALSE, mk_not, CMP_SWAP, CMP_NEG_INT
+from ..ratfun import RF
+from ..values import *
+from ..interp import Interp, Diverges, CallCtx
+from ..models import MODELS
+
+ISIZE_MAX = 2 ** 63 - 1
+USIZE_MAX = 2 ** 64 - 1
+
+# documented rejections: minimum input length per entry point (DESIGN §3.6 / property C16)
+DOC_MIN = {
+    'linear::linear': ('fewer than 2 knots', 2),
+    'spline::constrained_spline': ('fewer than 3 knots', 3),
+}
+EMPTY_OK_SUFFIX = ('>::evaluate', '>::evaluate_v', '>::new', '>::add', '>::sub')
+
+
+# ---------------------------------------------------------------- linear arithmetic over usize terms
+class Lin:
+    """linear form Σ cᵢ·atomᵢ + c over Fractions; atoms are arbitrary hashable terms"""
+    __slots__ = ('co', 'c')
+
+    def __init__(self, co=None, c=0):
+        self.co = co or {}
+        self.c = Fraction(c)
+
+    def __add__(self, o):
+        co = dict(self.co)
+        for k, v in o.co.items():
+            nv = co.get(k, 0) + v
+            if nv:
+                co[k] = nv
+            else:
+                co.pop(k, None)
+        return Lin(co, self.c + o.c)
+
+    def scale(self, s):
+        s = Fraction(s)
+        return Lin({k: v * s for k, v in self.co.items()} if s else {}, self.c * s)
+
+    def __sub__(self, o):
+        return self + o.scale(-1)
+
+
+def lin_of(t):
+    """usize term -> Lin (non-linear sub-terms become atoms)"""
+    h = t[0]
+    if h == 'ic':
+        return Lin({}, t[1])
+    if h == 'i+':
+        return lin_of(t[1]) + lin_of(t[2])
+    if h == 'i-':
+        return lin_of(t[1]) - lin_of(t[2])
+    if h == 'i*':
+        a, b = lin_of(t[1]), lin_of(t[2])
+        if not a.co:
+            return b.scale(a.c)
+        if not b.co:
+            return a.scale(b.c)
+        return Lin({t: Fraction(1)})
+    return Lin({t: Fraction(1)})
+
+
+def ineqs_of(c, out):
+    """boolean fact -> list of Lin f with meaning f ≥ 0 (integers)"""
+    h = c[0]
+    if h == 'and':
+        ineqs_of(c[1], out)
+        ineqs_of(c[2], out)
+        return
+    if h == 'icmp':
+        op, a, b = c[1], lin_of(c[2]), lin_of(c[3])
+        if op == 'lt':
+            out.append(b - a - Lin({}, 1))
+        elif op == 'le':
+            out.append(b - a)
+        elif op == 'gt':
+            out.append(a - b - Lin({}, 1))
+        elif op == 'ge':
+            out.append(a - b)
+        elif op == 'eq':
+            out.append(a - b)
+            out.append(b - a)
+        elif op == 'ne':
+            # x != 0 for an unsigned atom means x ≥ 1
+            if not b.co and b.c == 0:
+                out.append(a - Lin({}, 1))
+        return
+    if h == 'not' and c[1][0] == 'ovf':
+        _, op, a, b, ty = c[1]
+        la, lb = lin_of(a), lin_of(b)
+        if op == 'sub':
+            out.append(la - lb)
+        elif op == 'add':
+            out.append(Lin({}, USIZE_MAX) - la - lb)
+
+
+def stream_len_term(sterm):
+    """length of a stream given as an abstract term (only the shapes the searches use)"""
+    if isinstance(sterm, tuple) and sterm[0] == 'stream':
+        if sterm[1] == 'src':
+            v = sterm[2]
+            if v[0] == 'view':
+                return ('i-', v[3], v[2])
+        if sterm[1] in ('enumerate', 'rev', 'cloned'):
+            return stream_len_term(sterm[2])
+    return None
+
+
+def axioms(atoms, facts):
+    out = []
+    for a in atoms:
+        out.append(Lin({a: Fraction(1)}))                               # unsigned
+        h = a[0]
+        if h in ('len', 'slen'):
+            out.append(Lin({}, ISIZE_MAX) - Lin({a: Fraction(1)}))      # a collection never exceeds isize::MAX elements
+        elif h == 'isatsub':
+            out.append(lin_of(a[1]) - Lin({a: Fraction(1)}))
+            out.append(Lin({a: Fraction(1)}) - (lin_of(a[1]) - lin_of(a[2])))
+        elif h == 'imin':
+            out.append(lin_of(a[1]) - Lin({a: Fraction(1)}))
+            out.append(lin_of(a[2]) - Lin({a: Fraction(1)}))
+        elif h in ('firstidx', 'lastidx'):
+            found = ('found',) + tuple(a[1:])
+            n = stream_len_term(a[1])
+            if found in facts and n is not None:
+                out.append(lin_of(n) - Lin({a: Fraction(1)}) - Lin({}, 1))
+    return out
+
+
+def collect_atoms(lins):
+    s = set()
+    for l in lins:
+        s |= set(l.co)
+    # atoms nested inside atoms (isatsub(len(..), ..)) need their own axioms
+    work = list(s)
+    while work:
+        a = work.pop()
+        for x in subterms(a):
+            if x is not a and x[0] in ('len', 'slen', 'isatsub', 'imin', 'firstidx', 'lastidx', 'sym') and x not in s:
+                if x[0] == 'sym' and not _is_int_sym(x):
+                    continue
+                s.add(x)
+                work.append(x)
+    return s
+
+
+def _is_int_sym(x):
+    return True
+
+
+def _mentions_int(f):
+    return any(x[0] in ('icmp', 'ovf') for x in subterms(f))
+
+
+def infeasible(cons):
+    """Fourier–Motzkin: is {f ≥ 0 for f in cons} infeasible over the rationals?"""
+    cons = [c for c in cons]
+    for _round in range(40):
+        # constant contradictions
+        for c in cons:
+            if not c.co and c.c < 0:
+                return True
+        vars_ = set()
+        for c in cons:
+            vars_ |= set(c.co)
+        if not vars_:
+            return False
+        # pick the variable with the fewest pos×neg products
+        best = None
+        for v in vars_:
+            p = sum(1 for c in cons if c.co.get(v, 0) > 0)
+            n = sum(1 for c in cons if c.co.get(v, 0) < 0)
+            score = p * n - p - n
+            if best is None or score < best[0]:
+                best = (score, v)
+        v = best[1]
+        pos = [c for c in cons if c.co.get(v, 0) > 0]
+        neg = [c for c in cons if c.co.get(v, 0) < 0]
+        rest = [c for c in cons if c.co.get(v, 0) == 0]
+        new = rest
+        for p_ in pos:
+            for n_ in neg:
+                a, b = p_.co[v], -n_.co[v]
+                new.append(p_.scale(b) + n_.scale(a))
+        if len(new) > 4000:
+            return False
+        cons = new
+    return False
+
+
+def _nnf(f):
+    """push a top-level negation inwards (¬(a∧b) = ¬a∨¬b, ¬(a∨b) = ¬a∧¬b)"""
+    if isinstance(f, tuple) and f and f[0] == 'not' and isinstance(f[1], tuple):
+        g = f[1]
+        if g[0] == 'and':
+            return ('or', _nnf(mk_not(g[1])), _nnf(mk_not(g[2])))
+        if g[0] == 'or':
+            return ('and', _nnf(mk_not(g[1])), _nnf(mk_not(g[2])))
+    return f
+
+
+def entails(facts, goal, depth=0):
+    """do the (integer) facts entail the boolean goal?  Sound, incomplete.
+    Disjunctive facts are handled by case split (bounded)."""
+    if goal == TRUE:
+        return True
+    if goal[0] == 'and':
+        return entails(facts, goal[1], depth) and entails(facts, goal[2], depth)
+    if goal[0] == 'sel':
+        return entails(list(facts) + [goal[1]], goal[2], depth) and entails(list(facts) + [mk_not(goal[1])], goal[3], depth)
+    if goal[0] in ('icmp', 'not') and depth < 6:
+        for x in subterms(goal):
+            if x is not goal and x[0] == 'sel':
+                c = x[1]
+                g1 = simp(goal, {c: True})
+                g0 = simp(goal, {c: False})
+                return entails(list(facts) + [c], g1, depth + 1) and entails(list(facts) + [mk_not(c)], g0, depth + 1)
+    facts = [_nnf(f) for f in facts if isinstance(f, tuple)]
+    if depth < 5:
+        for k, f in enumerate(facts):
+            if f[0] == 'or' and _mentions_int(f):
+                rest = facts[:k] + facts[k + 1:]
+                return entails(rest + [f[1]], goal, depth + 1) and entails(rest + [f[2]], goal, depth + 1)
+    fl = []
+    for f in facts:
+        if isinstance(f, tuple):
+            ineqs_of(f, fl)
+    # goal as one or more inequalities, each proved by refuting its negation
+    gl = []
+    ineqs_of(goal, gl)
+    if not gl:
+        return False
+    for g in gl:
+        negg = g.scale(-1) - Lin({}, 1)      # ¬(g ≥ 0)  ⇔  −g − 1 ≥ 0 over the integers
+        atoms = collect_atoms(fl + [negg])
+        ax = axioms(atoms, set(facts))
+        if not infeasible(fl + ax + [negg]):
+            return False
+    return True
+
+
+# ---------------------------------------------------------------- loop invariants (cursor ≤ bound)
+def sel_leaves(t, conds=()):
+    if isinstance(t, tuple) and t and t[0] == 'sel':
+        yield from sel_leaves(t[2], conds + (t[1],))
+        yield from sel_leaves(t[3], conds + (mk_not(t[1]),))
+    else:
+        yield conds, t
+
+
+def loop_invariants(it, lp):
+    """Houdini-style: candidates v ≤ B for carried integer v and loop-invariant B it is compared with;
+    keep those that hold on entry and are preserved by the back edge."""
+    ints = [(r, p, fv, iv) for r, p, fv, iv in lp.carried if isinstance(fv, tuple) and fv[0] == 'sym']
+    if not ints or lp.back is None:
+        return []
+    cands = []
+    terms = []
+    for s in lp.back_states + [x for ss in lp.exit_states.values() for x in ss]:
+        terms += [l[0] for l in s.guard]
+        terms += list(s.facts)
+    carried_syms = {fv for _, _, fv, _ in ints}
+    for t0 in terms:
+        for x in subterms(t0):
+            if x[0] == 'icmp' and x[2] in carried_syms and not (set(subterms(x[3])) & carried_syms):
+                cands.append((x[2], x[3]))
+    cands = list(dict.fromkeys(cands))
+    entry_facts = set(lp.entry_state.facts)
+    inv = []
+    for v, B in cands:
+        r, p, fv, iv = [q for q in ints if q[2] == v][0]
+        if entails(entry_facts, ('icmp', 'le', iv, B)):
+            inv.append((v, B, (r, p)))
+    changed = True
+    while changed:
+        changed = False
+        inv_facts = {('icmp', 'le', v, B) for v, B, _ in inv}
+        for (v, B, (r, p)) in list(inv):
+            ok = True
+            for bs in lp.back_states:
+                nv = it.read(bs, r, p)
+                base = set(bs.facts) | inv_facts
+                for l in bs.guard:
+                    base.add(l[0] if l[1] else mk_not(l[0]))
+                for conds, leaf in sel_leaves(nv):
+                    fs = set(base) | set(conds)
+                    if not entails(fs, ('icmp', 'le', leaf, B)):
+                        ok = False
+                        break
+                if not ok:
+                    break
+            if not ok:
+                inv.remove((v, B, (r, p)))
+                changed = True
+    return [('icmp', 'le', v, B) for v, B, _ in inv]
+
+
+# ---------------------------------------------------------------- the inventory
+def site_key(s):
+    return 'C16:panic:%s:%s:%s' % (s['fn'], s['kind'], term_str(s['cond'])[:160])
+
+
+def input_len_fact(facts):
+    """facts of the form len(input) < c / == 0 (negated length requirement on an input sequence)"""
+    out = []
+    for f in facts:
+        if isinstance(f, tuple) and f[0] == 'icmp' and f[2][0] == 'len' and f[2][1][0] == 'seq' and f[3][0] == 'ic':
+            if f[1] == 'lt':
+                out.append((f[2], f[3][1]))
+            elif f[1] == 'eq' and f[3][1] == 0:
+                out.append((f[2], 1))
+            elif f[1] == 'le':
+                out.append((f[2], f[3][1] + 1))
+    return out
+
+
+def classify(it, s, invariants):
+    """-> (class, explanation) or (None, reason)"""
+    cond = s['cond']
+    facts = set(s['facts'])
+    for lid in s['loops']:
+        facts |= set(invariants.get(lid, []))
+    fn = s['fn']
+    kind = s['kind']
+    if cond == TRUE:
+        return 'CONST', 'condition folds to true'
+    if s['known'] is True:
+        return 'DOM', 'dominated by a check of the same condition'
+    if kind == 'explicit-panic':
+        lf = input_len_fact(facts)
+        base = fn.split('::{closure')[0]
+        if base in DOC_MIN and len(lf) >= 1 and all(c == DOC_MIN[base][1] for _, c in lf):
+            return 'DOC', 'documented rejection: ' + DOC_MIN[base][0]
+        if base.endswith(EMPTY_OK_SUFFIX) and 'iecewise' in base and lf and all(c == 1 for _, c in lf):
+            return 'DOC', 'documented rejection: empty piecewise function'
+        return None, 'explicit panic reachable under %s' % [term_str(f)[:80] for f in list(facts)[:4]]
+    if kind in ('unwrap', 'expect') and isinstance(cond, tuple) and cond[0] == 'not' and cond[1][0] == 'unord':
+        a, b = cond[1][1], cond[1][2]
+        if s.get('in_sort_cmp') is not None:
+            sa, sb, seqt = s['in_sort_cmp']
+            for f in facts:
+                if f[0] == 'all' and f[3][0] == 'isnormal' and f[3][1][0] == 'elem' and f[3][1][1] == seqt:
+                    return 'NONNAN', 'comparator operands are elements of a vector whose elements are all is_normal'
+            return None, 'sort comparator unwrap not dominated by an is_normal check'
+        if fn.endswith(('>::add', '>::sub')) and a[0] == 'elem' and b[0] == 'elem' and a[3] == 'end' and b[3] == 'end':
+            return 'DOC', 'documented rejection: NaN breakpoint in + / −'
+        return None, 'partial_cmp().unwrap() on possibly-NaN operands'
+    if entails(facts, cond):
+        return 'ARITH', 'follows from the path facts by linear arithmetic'
+    # documented: empty piecewise operands in + / −, empty input to PiecewiseEvaluator::new
+    base = fn.split('::{closure')[0]
+    if base.endswith(EMPTY_OK_SUFFIX) and 'iecewise' in base:
+        # the condition is exactly "some input collection(s) non-empty"
+        gl = []
+        ineqs_of(cond, gl)
+        if len(gl) == 1:
+            g = gl[0]
+            if g.c == -1 and g.co and all(a[0] == 'len' and a[1][0] == 'seq' and v == 1 for a, v in g.co.items()):
+                return 'DOC', 'documented rejection: empty piecewise function'
+    return None, 'not discharged: %s under %s' % (term_str(cond)[:120], [term_str(f)[:60] for f in list(facts)[:5]])
+
+
+def run_all(cx):
+    """analyse every hand-written function (T unbound); returns (sites, entered, problems, per-fn interps)"""
+    sites = []
+    entered = set()
+    problems = []
+    invariants = {}
+    analyses = []
+    for f in cx.facts.hand_written_fns():
+        if f['kind'] == 'Closure':
+            continue
+        it = Interp(cx.facts, MODELS)
+        try:
+            ret, st, args = it.analyse_fn(f, {})
+        except Diverges:
+            ret, st, args = None, None, None
+        except Unsupported as e:
+            problems.append((f, 'analysis does not cover this construct: %s at %s' % (e, e.where)))
+            continue
+        analyses.append((f, it, ret, st, args))
+        extra_closure_steps(cx, f, it, ret, st, args, problems)
+        for lp in it.loops:
+            invariants[id(lp)] = loop_invariants(it, lp)
+        for s in it.sites:
+            sites.append((it, s))
+        entered |= it.entered
+    return sites, entered, problems, invariants
+
+
+def extra_closure_steps(cx, f, it, ret, st, args, problems):
+    """closures returned lazily (never called inside their parent) are stepped once on symbolic inputs.
+    By-value scalar captures are the closure's state across calls: candidate invariants `cap < len(S)` are kept
+    when they hold for the initial capture and are preserved by one step (Houdini), and are then assumed."""
+    if not isinstance(ret, Stream) or ret.kind != 'map':
+        return
+    cell = ret.parts[1]
+    try:
+        clos = it.read(st, cell.root, cell.path)
+    except Unsupported:
+        return
+    if not isinstance(clos, Closure):
+        return
+    cf = cx.facts.fn(clos.path)
+    body = cf['body']
+
+    def hv(v, name):
+        if isinstance(v, tuple):
+            return sym(name)
+        if isinstance(v, Struct):
+            return Struct(v.path, tuple(hv(x, '%s.%d' % (name, i)) for i, x in enumerate(v.fields)), v.tyargs)
+        return v
+    caps = tuple(hv(c, 'cap%d' % i) for i, c in enumerate(clos.captures))
+    scalar_caps = [(i, caps[i], clos.captures[i]) for i in range(len(caps)) if isinstance(caps[i], tuple) and caps[i][0] == 'sym' and isinstance(clos.captures[i], tuple)]
+
+    def step(extra_facts):
+        st2 = State(dict(st.store), (), frozenset(st.facts) | frozenset(extra_facts))
+        it.write(st2, cell.root, cell.path, Closure(clos.path, caps))
+        cargs = []
+        for i in range(2, body['arg_count'] + 1):
+            cargs.append(it.materialize(body['locals'][i]['ty'], 'carg%d' % i, st2, {}))
+        ctx = CallCtx(it, None, st2, None, [], None, None)
+        mark = len(it.sites)
+        it.call_closure(ctx, cell, cargs)
+        after = it.read(ctx.state, cell.root, cell.path)
+        return mark, after
+    from ..interp import State
+    try:
+        mark, after = step([])
+    except (Unsupported, Diverges) as e:
+        problems.append((cf, 'lazily returned closure could not be stepped: %s' % e))
+        return
+    if not scalar_caps:
+        return
+    # candidates from the conditions of the sites just recorded
+    cands = []
+    for s in it.sites[mark:]:
+        for x in subterms(s['cond']):
+            if x[0] == 'len' and x[1][0] == 'seq':
+                for i, cs, init in scalar_caps:
+                    cands.append(('icmp', 'lt', cs, x))
+    cands = list(dict.fromkeys(cands))
+    cands = [c for c in cands if entails(set(st.facts), ('icmp', 'lt', [init for i, cs, init in scalar_caps if cs == c[2]][0], c[3]))]
+    while cands:
+        del it.sites[mark:]
+        try:
+            mark, after = step(cands)
+        except (Unsupported, Diverges) as e:
+            problems.append((cf, 'lazily returned closure could not be stepped: %s' % e))
+            return
+        keep = []
+        for c in cands:
+            i = [i for i, cs, init in scalar_caps if cs == c[2]][0]
+            nv = after.captures[i]
+            ok = all(entails(set(st.facts) | set(cands) | set(conds), ('icmp', 'lt', leaf, c[3])) for conds, leaf in sel_leaves(nv))
+            if ok:
+                keep.append(c)
+        if len(keep) == len(cands):
+            break
+        cands = keep
+    if not cands:
+        del it.sites[mark:]
+        try:
+            step([])
+        except (Unsupported, Diverges):
+            pass
+
+
 def check_inventory(cx, rep):
-    pass
+    sites, entered, problems, invariants = run_all(cx)
+    for f, why in problems:
+        file, line = fn_loc(f)
+        rep.ob('inventory', f['path'], False, why, fn=f['path'], file=file, line=line, key='C16:unsupported:' + f['path'])
+    # every hand-written body must have been analysed
+    missing = [f for f in cx.facts.hand_written_fns() if f['path'] not in entered]
+    for f in missing:
+        file, line = fn_loc(f)
+        rep.ob('covered', f['path'], False, 'body was never analysed (its panic sites are unknown)', fn=f['path'], file=file, line=line,
+               key='C16:uncovered:' + f['path'])
+    rep.ob('covered', 'all-bodies', not missing, '%d hand-written bodies analysed' % len([f for f in cx.facts.hand_written_fns() if f['path'] in entered]))
+    seen = {}
+    classes = {}
+    const_sites = set()
+    for it, s in sites:
+        if s['expanded']:
+            continue
+        if s['cond'] == TRUE:
+            d = s.get('detail') or {}
+            const_sites.add((s['fn'], s['line'], s['kind'], term_str(d.get('index', ('ic', -1))) if isinstance(d.get('index'), tuple) else ''))
+            continue
+        k = site_key(s)
+        cls, why = classify(it, s, invariants)
+        prev = seen.get(k)
+        # the same site can be reached from several roots (inlining); it must be discharged in every context
+        if prev is None or (prev[0] is not None and cls is None):
+            seen[k] = (cls, why, s)
+    for k, (cls, why, s) in seen.items():
+        classes[cls or 'UNDISCHARGED'] = classes.get(cls or 'UNDISCHARGED', 0) + 1
+        f = cx.facts.fn(s['fn']) if cx.facts.has_fn(s['fn']) else None
+        file = f['span']['file'] if f else None
+        rep.ob('panic', '%s:%s:%s' % (s['fn'], s['kind'], term_str(s['cond'])[:100]), cls is not None,
+               '%s — %s' % (cls, why) if cls else why, fn=s['fn'], file=file, line=s['line'], key=k,
+               msg='panic site `%s` (%s) is neither discharged nor a documented rejection: %s' % (s['kind'], term_str(s['cond'])[:140], why))
+    classes['CONST'] = len(const_sites)
+    rep.extra_coverage = dict(getattr(rep, 'extra_coverage', {}), panic_site_classes=classes,
+                              constant_sites=classes.get('CONST', 0))
+    rep.counts['panic-const'] = classes.get('CONST', 0)
+    if classes.get('CONST', 0) < 250:
+        rep.finding('floor', 'panic-const', 'only %d constant-index sites found, expected at least 250' % classes.get('CONST', 0))
+    rep.floor('panic', 40)
+    doc = classes.get('DOC', 0)
+    if doc < 10:
+        rep.finding('floor', 'panic-doc', 'only %d documented-rejection sites matched, expected at least 10 (fails closed)' % doc)
